@@ -16,6 +16,41 @@ from .core import AnalysisError, Func, Program, Report, src, walk_own
 from .norm import Resolver, fact_set
 
 
+def inline_helper(prog: Program, module_rel: str, e: ast.expr) -> ast.expr | None:
+    """`helper(a, b)` where helper is a module-level function of the same module
+    whose body is a single `return <expr>`: the returned expression with the
+    arguments substituted (a predicate extracted into a private helper still
+    establishes the facts it tests)."""
+    from .norm import clone
+
+    class T(ast.NodeTransformer):
+        def __init__(self) -> None:
+            self.changed = False
+
+        def visit_Call(self, node: ast.Call) -> ast.AST:
+            self.generic_visit(node)
+            if isinstance(node.func, ast.Name) and not node.keywords:
+                key = f"{module_rel}::{node.func.id}"
+                if prog.has_func(key):
+                    f = prog.func(key)
+                    body = [s for s in f.node.body if not (isinstance(s, ast.Expr) and isinstance(s.value, ast.Constant))]
+                    params = f.params()
+                    if len(body) == 1 and isinstance(body[0], ast.Return) and body[0].value is not None and len(params) == len(node.args):
+                        mapping = dict(zip(params, node.args))
+
+                        class S(ast.NodeTransformer):
+                            def visit_Name(self, n: ast.Name) -> ast.AST:
+                                return clone(mapping[n.id]) if n.id in mapping else n
+
+                        self.changed = True
+                        return S().visit(clone(body[0].value))
+            return node
+
+    t = T()
+    out = t.visit(clone(e))
+    return out if t.changed else None
+
+
 class FnView:
     """Per-function analysis bundle (CFG, resolver), cached on the program."""
 
@@ -28,6 +63,7 @@ class FnView:
 
     def guards(self, node: ast.AST, resolve: bool = True) -> set[str]:
         g = self.cfg.guards_at(node)
+        g = g + [(h, o) for a, o in g for h in [inline_helper(self.prog, self.fn.module.rel, a)] if h is not None]
         if resolve:
             out = fact_set(g)
             for d in (1, 2, 3, 4):
@@ -106,6 +142,9 @@ def _establishing(v: FnView, fact: str) -> list:
             fs = set(_facts(n.node, n.kind == "T"))
             for d in (1, 2, 3, 4):
                 fs |= set(_facts(n.node, n.kind == "T", v.res.src_at(d)))
+            h = inline_helper(v.prog, v.fn.module.rel, n.node)
+            if h is not None:
+                fs |= set(_facts(h, n.kind == "T"))
             if fact.startswith("re:"):
                 if has_fact(fs, fact[3:]):
                     out.append(n)
